@@ -19,7 +19,18 @@ category, registered name of each unit) go to the model, and `GetUnit / GetCateg
 GetUnitName / IsDerived / GetComposingUnitsJoiningExponents`, `repr/str` of a Scalar and of an Array are
 compared with the model's strings verbatim.  `_MakeStr` is additionally driven directly with arbitrary
 (text, exponent) lists, and the model's grammar parser / atomicity predicate are compared with an
-independent Python parser on every table symbol and on random strings."""
+independent Python parser on every table symbol and on random strings.
+
+Histories (op `history`): several steps run in ONE database whose quantities cache is emptied first and then stays
+warm - products / quotients / powers of Scalars, of Quantity objects and of value-less Arrays, `Quantity.CreateDerived`,
+`ObtainQuantity` with a mapping (with and without unknown-unit caption) and in the list form - where later steps
+compose the same factors in another order.  For these the model is NOT given the entries of the result: it gets the
+expression (postfix) over the simple operands / the requested mapping and predicts the entry list itself
+(`Barril.Str.opQ / qpow / spow`: `_MatchQuantities`, the merge loop, the removal of cancelled factors, written after
+the same Python as engine Alg's `opNew`, value-free), then all strings, `GetComposingUnits/Categories`,
+`repr/str(Quantity)`, `GetUnitCaption`, the value object's `GetUnitName/GetFormatted`.  Theorems:
+`product_strings_from_operands`, `product_factor_order`, `matching_idempotent`, `quantity_pow_eq_iterated_mul`,
+`pow_unit_string`, `pow_unit_string_parses`, `scalar_pow_eq_quantity_pow`."""
 import re
 from collections import OrderedDict
 
@@ -38,10 +49,20 @@ RULE = ("derived quantities built on the real code: (a) profiles - 0..4 numerato
         "(zero exponents, cancelling totals, non-atomic and unregistered unit texts, one-entry dicts, the empty "
         "dict); (d) simple quantities of table units (all 1548 in the thorough tier); (e) _MakeStr on arbitrary "
         "(text, exponent) lists incl. empty texts; (f) the grammar parser and the atomicity predicate on every "
-        "table symbol and on random strings.  distinct = distinct model line; non-trivial = a derived quantity "
+        "table symbol and on random strings; (g) histories of 1..4 steps in one database with a warm cache: 2..4 "
+        "factors (distinct categories, now and then two categories of one quantity type) composed in a different random "
+        "order at every step, as a chain of * and / on Scalars / Quantity objects / value-less Arrays, as "
+        "Quantity.CreateDerived, as ObtainQuantity(mapping[, caption]) or in the list form, random trees followed by "
+        "the same tree with products commuted, and powers x ** n for n in -2..9 of simple and derived bases "
+        "(Quantity ** n, Scalar ** n, n-fold product of Arrays): the model predicts every step from the operands / "
+        "the request.  distinct = distinct model line; non-trivial = a derived quantity "
         "with >= 2 entries, or a parse of a string containing '.' or '/'")
 EXHAUSTIVE = {"quick": False, "thorough": False}
-ASSUMPTIONS = ["the model receives the quantity's internal entry list and the registry lookups (category -> quantity "
+ASSUMPTIONS = ["history cases: the model computes the entry list of a product / quotient / power from the simple operands "
+               "(value-free copy of engine Alg's opNew on byte strings; the numbers, and which conversions fail, stay "
+               "C03/C04's business: a step whose value computation fails is skipped); the quantities cache is not "
+               "modelled (a memo keyed by the ordered request must be transparent: that is what the histories test)",
+               "other cases: the model receives the quantity's internal entry list and the registry lookups (category -> quantity "
                "type, (type, unit) -> name) as data read from the real objects; how arithmetic produces the entry "
                "list is engine Alg's business (C03/C04), how lookups resolve is engine Conv's (C01/C02)",
                "the entry list is that of an existing quantity: whether a unit is valid for its category (the check in the "
@@ -390,6 +411,412 @@ def _strings_case(ctx, t):
                 _t=dict(t, entries=ent))
 
 
+# ------------------------------------------------------------------ histories (shared database, warm cache)
+def _factor_tree(rng, facs):
+    """facs: [(leaf, exp != 0)] in the order they are to be composed: a left-to-right chain of * and /"""
+    (leaf, e), rest = facs[0], facs[1:]
+    tree = _power(rng, leaf, e) if e > 0 else ["rdiv", 1.0, _power(rng, leaf, -e)]
+    for leaf, e in rest:
+        p = _power(rng, leaf, abs(e))
+        if e > 0:
+            tree = ["mul", tree, p]
+        elif rng.random() < 0.7:
+            tree = ["div", tree, p]
+        else:
+            for _ in range(-e):
+                tree = ["div", tree, leaf]
+    return tree
+
+
+def _commuted(rng, r):
+    """the same expression with the operands of some products swapped"""
+    if not isinstance(r, list) or r[0] == "leaf":
+        return r
+    if r[0] == "mul":
+        a, b = _commuted(rng, r[1]), _commuted(rng, r[2])
+        return ["mul", b, a] if rng.random() < 0.6 else ["mul", a, b]
+    if r[0] == "div":
+        return ["div", _commuted(rng, r[1]), _commuted(rng, r[2])]
+    if r[0] == "pow":
+        return ["pow", _commuted(rng, r[1]), r[2]]
+    if r[0] == "rdiv":
+        return ["rdiv", r[1], _commuted(rng, r[2])]
+    return r
+
+
+def _mode_for(rng, trees):
+    if any(uses_rdiv(t) for t in trees):
+        return rng.choice(["s", "s", "a0"])
+    return rng.choice(["s", "q", "q", "a0"])
+
+
+def _history(ctx, rng):
+    if rng.random() < 0.3:
+        # a random expression, then the same expression with products commuted
+        tree = _tree(ctx, rng, rng.randint(1, 3))
+        trees = [tree] + [_commuted(rng, tree) for _ in range(rng.randint(1, 2))]
+        return dict(kind="history", mode=_mode_for(rng, trees), steps=[dict(k="expr", recipe=t) for t in trees])
+    # k factors with distinct categories (now and then two categories of one quantity type, same or different units)
+    k = rng.choice([2, 2, 2, 3, 3, 4])
+    facs = []
+    while len(facs) < k:
+        leaf = _leaf(ctx, rng)
+        if rng.random() < 0.25 and facs:
+            leaf = _leaf(ctx, rng, ctx.db.GetCategoryQuantityType(facs[0][0][2]))
+        if leaf[2] in [f[0][2] for f in facs]:
+            continue
+        facs.append((leaf, rng.choice([-3, -2, -1, -1, 1, 1, 1, 2, 3])))
+    steps = []
+    for _ in range(rng.randint(2, 4)):
+        order = list(facs)
+        rng.shuffle(order)
+        w = rng.random()
+        if w < 0.5:
+            steps.append(dict(k="expr", recipe=_factor_tree(rng, order)))
+        elif w < 0.68:
+            steps.append(dict(k="derived", entries=[[l[2], l[1], e] for l, e in order]))
+        elif w < 0.84:
+            steps.append(dict(k="dict", entries=[[l[2], l[1], e] for l, e in order]))
+        else:
+            steps.append(dict(k="list", pairs=[[l[1], e] for l, e in order], lcats=[l[2] for l, _e in order],
+                              as_tuple=rng.random() < 0.5))
+        if steps[-1]["k"] in ("derived", "dict") and rng.random() < 0.35:
+            # an unknown-unit caption: part of the cache key and of Quantity.__repr__, not of the strings
+            steps[-1]["cap"] = rng.choice(["", "my unit", "X"])
+    return dict(kind="history", mode=_mode_for(rng, [st["recipe"] for st in steps if st["k"] == "expr"]), steps=steps)
+
+
+def _pow_history(ctx, rng):
+    w = rng.random()
+    if w < 0.4:
+        base = _leaf(ctx, rng)
+    elif w < 0.8:
+        k = rng.choice([2, 2, 3])
+        facs = []
+        while len(facs) < k:
+            leaf = _leaf(ctx, rng)
+            if leaf[2] not in [f[0][2] for f in facs]:
+                facs.append((leaf, rng.choice([-2, -1, 1, 1, 2])))
+        base = _factor_tree(rng, facs)
+    else:
+        base = _tree(ctx, rng, 2)
+    ns = rng.sample([-2, -1, 0, 1, 2, 3, 4, 4, 5, 6, 7, 8, 9], rng.randint(1, 3))
+    steps = [dict(k="expr", recipe=["pow", base, n]) for n in ns]
+    if rng.random() < 0.3:
+        steps.append(dict(k="expr", recipe=["mul", ["pow", base, ns[0]], base]))
+    mode = "s" if uses_rdiv(base) and rng.random() < 0.7 else ("a0" if uses_rdiv(base) else rng.choice(["q", "q", "q", "s", "a0"]))
+    return dict(kind="history", mode=mode, steps=steps)
+
+
+def _leaves(r, out):
+    if r[0] == "leaf":
+        out.append((r[2], r[1]))
+    else:
+        for x in r[1:]:
+            if isinstance(x, list):
+                _leaves(x, out)
+    return out
+
+
+def _rpn(r, mode, out):
+    k = r[0]
+    if k == "leaf":
+        out.append(["leaf", str(sym(r[2])), str(sym(r[1]))])
+    elif k in ("mul", "div"):
+        _rpn(r[1], mode, out)
+        _rpn(r[2], mode, out)
+        out.append([k])
+    elif k == "rdiv":
+        _rpn(r[2], mode, out)
+        out.append(["rdiv"])
+    elif k == "pow":
+        _rpn(r[1], mode, out)
+        # Quantity.__pow__ is self * result; Scalar.__pow__ (and the n-fold product the harness writes for Arrays)
+        # is result * self
+        out.append(["qpow" if mode == "q" else "spow", r[2]])
+    else:
+        raise ValueError(k)
+    return out
+
+
+def _history_case(ctx, t):
+    ent = []
+    msteps = []
+    for st in t["steps"]:
+        if st["k"] == "expr":
+            for c, u in _leaves(st["recipe"], []):
+                ent.append([c, u, 1])
+            msteps.append(dict(k="expr", rpn=_rpn(st["recipe"], t["mode"], [])))
+        elif st["k"] in ("derived", "dict"):
+            ent += st["entries"]
+            msteps.append(dict(k="dict", entries=[[str(sym(c)), str(sym(u)), e] for c, u, e in st["entries"]]))
+            if "cap" in st:
+                msteps[-1]["cap"] = str(sym(st["cap"]))
+        else:
+            ent += [[c, u, e] for c, (u, e) in zip(st["lcats"], st["pairs"])]
+            msteps.append(dict(k="list", pairs=[[str(sym(u)), e] for u, e in st["pairs"]],
+                               lcats=[str(sym(c)) for c in st["lcats"]]))
+    # matching can put the unit of one factor on another factor of the same quantity type: every (type, unit) pair
+    cats, _n = lookups(ctx.db, ent)
+    qt_of = dict((c, qt) for c, qt in cats)
+    names = []
+    for qt in sorted(set(qt_of.values())):
+        for u in sorted(set(u for c, u, _e in ent if qt_of.get(c) == qt)):
+            try:
+                names.append([qt, u, ctx.db.GetUnitName(qt, u)])
+            except Exception:
+                pass
+    return dict(op="history", steps=msteps,
+                cats=[[str(sym(c)), str(sym(qt))] for c, qt in cats],
+                names=[[str(sym(qt)), str(sym(u)), str(sym(n))] for qt, u, n in names],
+                _t=t)
+
+
+def _run_step(st, mode):
+    """one step on the real code: (quantity, value object or None)"""
+    from barril.units import ObtainQuantity, Quantity
+
+    if st["k"] == "expr":
+        x = build(st["recipe"], mode)
+        return (x, None) if mode == "q" else (x.GetQuantity(), x)
+    if st["k"] == "derived":
+        d = OrderedDict((c, [u, e]) for c, u, e in st["entries"])
+        return (Quantity.CreateDerived(d, st["cap"]) if "cap" in st else Quantity.CreateDerived(d)), None
+    if st["k"] == "dict":
+        d = OrderedDict((c, [u, e]) for c, u, e in st["entries"])
+        return (ObtainQuantity(d, None, st["cap"]) if "cap" in st else ObtainQuantity(d)), None
+    cont = tuple if st.get("as_tuple") else list
+    return ObtainQuantity(cont((u, e) for u, e in st["pairs"]), cont(st["lcats"])), None
+
+
+def _plain(x):
+    return all(32 <= ord(ch) < 127 and ch not in "'\\" for ch in x)
+
+
+def _describe_step(st, mode):
+    from barril.basic.format_float import FormatFloat
+    from barril.units import Array, Scalar
+
+    try:
+        q, v = _run_step(st, mode)
+    except (ZeroDivisionError, OverflowError):
+        return dict(skip=True)   # a failed value computation (C03/C04/C10's business): no strings to compare
+    except Exception as e:
+        return dict(err=err_kind(e), detail=repr(e)[:200])
+    out = dict(entries=entries_of(q), unit=q.GetUnit(), category=q.GetCategory(), qtype=q.GetQuantityType(),
+               derived=bool(q.IsDerived()), joined=[[u, e] for u, e in q.GetComposingUnitsJoiningExponents()],
+               qrepr=repr(q), qstr=str(q), unit_caption=q.GetUnitCaption())
+    cu, cc = q.GetComposingUnits(), q.GetComposingCategories()
+    out["composing"] = [cu, cc] if isinstance(cu, str) else [[[u, e] for u, e in cu], list(cc)]
+    try:
+        out["unit_name"] = dict(ok=q.GetUnitName())
+    except Exception as e:
+        out["unit_name"] = dict(err=err_kind(e))
+    if v is None:
+        v = Scalar.CreateWithQuantity(q, 1.5)
+    if isinstance(v, Scalar):
+        out["repr"] = repr(v)
+        out["str"] = str(v)
+        out["formatted"] = v.GetFormatted()
+        out["repr_head"] = "%s(%s" % (type(v).__name__, v.value)
+        out["str_head"] = FormatFloat("%g", v.value)
+        out["value_getters"] = [v.GetUnit(), v.GetCategory(), v.GetQuantityType()]
+    else:   # an Array without values
+        out["arepr"] = repr(v)
+        out["astr"] = str(v)
+        out["value_getters"] = [v.GetUnit(), v.GetCategory(), v.GetQuantityType()]
+    try:
+        out["value_unit_name"] = dict(ok=v.GetUnitName())
+    except Exception as e:
+        out["value_unit_name"] = dict(err=err_kind(e))
+    a = Array.CreateWithQuantity(q, [1.0, 2.5])
+    out["arepr2"] = repr(a)
+    out["astr2"] = str(a)
+    return out
+
+
+def _run_history(t, ctx):
+    """the steps of a history on the real code, in order, in the shared database whose cache is emptied first"""
+    outs = []
+    with Pushed(ctx.db):
+        ctx.db.quantities_cache.clear()
+        for st in t["steps"]:
+            try:
+                outs.append(_describe_step(st, t["mode"]))
+            except Exception as e:
+                outs.append(dict(err=err_kind(e), detail="a getter raised: " + repr(e)[:200]))
+    return outs
+
+
+def _agree_step(r, mo, ctx):
+    if "skip" in r:
+        ctx.notes["history_steps_numeric_failure_skipped"] = ctx.notes.get("history_steps_numeric_failure_skipped", 0) + 1
+        return None
+    if "err" in r or "err" in mo:
+        if ("err" in r) != ("err" in mo):
+            return "one side fails: impl=%s model=%s" % (r, mo)
+        return None if r["err"] == mo["err"] else "error kinds differ: impl=%s model=%s" % (r, mo)
+    m = mo["ok"]
+    me = [[_u(c_), _u(u_), e_] for c_, u_, e_ in m["entries"]]
+    if r["entries"] != me:
+        return "entries: the real quantity has %s, the model predicts %s from the operands" % (r["entries"], me)
+    for k in ("unit", "category", "qtype"):
+        if r[k] != _u(m[k]):
+            return "%s: real %r, model %r" % (k, r[k], _u(m[k]))
+    if r["derived"] != m["derived"]:
+        return "IsDerived differs"
+    if r["derived"]:
+        want = [[[u_, e_] for _c, u_, e_ in me], [c_ for c_, _u2, _e in me]]
+    else:
+        want = [me[0][1], me[0][0]]
+    if r["composing"] != want:
+        return "GetComposingUnits/GetComposingCategories: real %s, model %s" % (r["composing"], want)
+    un_m = m["unit_name"]
+    for key in ("unit_name", "value_unit_name"):
+        un_r = r[key]
+        if ("err" in un_r) != ("err" in un_m) or ("err" in un_r and un_r["err"] != un_m["err"]):
+            return "GetUnitName (%s): real %s, model %s" % (key, un_r, un_m)
+        if "ok" in un_r and un_r["ok"] != _u(un_m["ok"]):
+            return "GetUnitName (%s): real %r, model %r" % (key, un_r["ok"], _u(un_m["ok"]))
+    jm = [[_u(x), e] for x, e in m["joined"]]
+    if r["joined"] != jm:
+        return "GetComposingUnitsJoiningExponents: real %s, model %s" % (r["joined"], jm)
+    if _plain(r["category"] + r["unit"]):
+        if r["qrepr"] != _u(m["quantity_repr"]) or r["qstr"] != _u(m["quantity_repr"]):
+            return "repr/str(Quantity): real %r / %r, model %r" % (r["qrepr"], r["qstr"], _u(m["quantity_repr"]))
+    if r["unit_caption"] != _u(m["unit"]):
+        return "GetUnitCaption: real %r, model %r (a registered unit: the unit itself)" % (r["unit_caption"], _u(m["unit"]))
+    if r["value_getters"] != [r["unit"], r["category"], r["qtype"]]:
+        return "the value object's getters differ from its quantity's"
+    if "repr" in r:
+        if r["repr"] != r["repr_head"] + _u(m["scalar_repr_tail"]):
+            return "repr(Scalar): real %r, model tail %r" % (r["repr"], _u(m["scalar_repr_tail"]))
+        if r["str"] != r["str_head"] + _u(m["suffix"]) or r["formatted"] != r["str"]:
+            return "str/GetFormatted(Scalar): real %r / %r, model suffix %r" % (r["str"], r["formatted"], _u(m["suffix"]))
+    else:
+        if r["arepr"] != "Array(" + _u(m["array_repr_head"]) + "[]" + _u(m["array_repr_tail"]):
+            return "repr(Array without values): real %r" % r["arepr"]
+        if r["astr"] != _u(m["suffix"]):
+            return "str(Array without values): real %r" % r["astr"]
+    if r["arepr2"] != "Array(" + _u(m["array_repr_head"]) + "[1.0, 2.5]" + _u(m["array_repr_tail"]):
+        return "repr(Array): real %r" % r["arepr2"]
+    if r["astr2"] != "1 2.5" + _u(m["suffix"]):
+        return "str(Array): real %r" % r["astr2"]
+    pm = None if m["parsed"] is None else [[_u(x), e] for x, e in m["parsed"]]
+    if pm != parse_unit(r["unit"]):
+        return "parse of %r: python %s, model %s" % (r["unit"], parse_unit(r["unit"]), pm)
+    if m["all_atomic"] and r["derived"] and pm != written(jm):
+        return "model: parse . render is not the written joined factors (contradicts theorem parse_render)"
+    return None
+
+
+# ---- the property on a history, on the real code only: what the factors of an expression ARE, from its operands
+def _expected(r, qt_of):
+    """[(category, unit, exp)] of an expression, in composition order: left operand's factors first, then the new
+    factors of the right operand; None = outside what the oracle decides (a power below 1, an exponent or a unit
+    total that cancels to zero, two different units of one quantity type: which one is kept is C03/C04's matter)"""
+    k = r[0]
+    if k == "leaf":
+        return [(r[2], r[1], 1)]
+    if k in ("mul", "div"):
+        a, b = _expected(r[1], qt_of), _expected(r[2], qt_of)
+        if a is None or b is None:
+            return None
+        sign = 1 if k == "mul" else -1
+        out = OrderedDict((c, [u, e]) for c, u, e in a)
+        for c, u, e in b:
+            if c in out:
+                out[c][1] += sign * e
+            else:
+                out[c] = [u, sign * e]
+        res = [(c, u, e) for c, (u, e) in out.items()]
+    elif k == "rdiv":
+        a = _expected(r[2], qt_of)
+        if a is None:
+            return None
+        res = [(c, u, -e) for c, u, e in a]
+    elif k == "pow":
+        a = _expected(r[1], qt_of)
+        if a is None or r[2] < 1:
+            return None
+        res = [(c, u, e * r[2]) for c, u, e in a]
+    else:
+        return None
+    units = {}
+    for c, u, e in res:
+        if units.setdefault(qt_of(c), u) != u:
+            return None
+    tot = OrderedDict()
+    for c, u, e in res:
+        tot[u] = tot.get(u, 0) + e
+    if any(e == 0 for _c, _u2, e in res) or any(v == 0 for v in tot.values()):
+        return None
+    return res
+
+
+def _oracle_history(c, ctx):
+    t = c["_t"]
+    db = ctx.db
+    from barril.units import Scalar
+
+    with Pushed(db):
+        db.quantities_cache.clear()
+        done = []
+        for i, st in enumerate(t["steps"]):
+            where = dict(input=show(c), step=i, after=done[:])
+            done.append(st)
+            try:
+                q, v = _run_step(st, t["mode"])
+            except (ZeroDivisionError, OverflowError):
+                continue
+            except Exception as e:
+                return dict(where, clause="building the quantity raised", error=repr(e))
+            if st["k"] == "expr":
+                want = _expected(st["recipe"], db.GetCategoryQuantityType)
+            elif st["k"] == "list":
+                want = [(c_, u_, e_) for c_, (u_, e_) in zip(st["lcats"], st["pairs"])]
+            else:
+                want = [(c_, u_, e_) for c_, u_, e_ in st["entries"]]
+            if want is None:
+                continue
+            try:
+                ent = [tuple(x) for x in entries_of(q)]
+                unit, cat, qt = q.GetUnit(), q.GetCategory(), q.GetQuantityType()
+                where = dict(where, factors_of_the_operands=[list(x) for x in want], entries=[list(x) for x in ent],
+                             unit=unit, category=cat, quantity_type=qt)
+                if ent != want:
+                    return dict(where, clause="the quantity holds every factor of the operands / of the requested mapping, "
+                                              "in the order and with the exponents they were multiplied / divided / "
+                                              "requested (whatever was created before in the same database)")
+                if len(want) == 1 and want[0][2] == 1:
+                    if [unit, cat, qt] != [want[0][1], want[0][0], db.GetCategoryQuantityType(want[0][0])]:
+                        return dict(where, clause="simple quantity strings are its registered unit/category/type")
+                    continue
+                f = _check_makestr("category string", cat, [[c_, e] for c_, _u, e in want])
+                if f:
+                    return dict(where, **f)
+                f = _check_makestr("quantity type string", qt, merged([[db.GetCategoryQuantityType(c_), e] for c_, _u, e in want]))
+                if f:
+                    return dict(where, **f)
+                units = [[u, e] for _c, u, e in want]
+                if all(is_atomic(u) for u, _e in units) and parse_unit(unit) != written(merged(units)):
+                    return dict(where, clause="parsing the unit string recovers the joined factors of the operands",
+                                parsed=parse_unit(unit), joined_factors=written(merged(units)))
+                cu, cc = q.GetComposingUnits(), q.GetComposingCategories()
+                if [tuple(x) for x in cu] != [(u, e) for _c, u, e in want] or list(cc) != [c_ for c_, _u, _e in want]:
+                    return dict(where, clause="composing units / categories are the factors of the operands in order",
+                                got=[list(cu), list(cc)])
+                if v is None:
+                    v = Scalar.CreateWithQuantity(q, 1.5)
+                if not str(v).endswith(" [%s]" % unit) or v.GetUnit() != unit:
+                    return dict(where, clause="str of the value object shows the unit", got=str(v))
+                if isinstance(v, Scalar) and "'" not in unit + cat and re.findall(r"'([^']*)'", repr(v))[:2] != [unit, cat]:
+                    return dict(where, clause="repr(Scalar) shows the unit, then the category", got=repr(v))
+            except Exception as e:
+                return dict(where, clause="a string getter raised", error=repr(e))
+    return None
+
+
 ALPHA = ["m", "s", "kg", "K", "1", "2", "0", "10", ".", "/", "ft", "(", ")", " ", "inH2O", "%"]
 
 
@@ -489,6 +916,16 @@ def _gen(ctx, salt, scale):
             continue
         primer = qt if (qt in others and rng.random() < 0.7) else rng.choice(others)
         yield _strings_case(ctx, dict(kind="simple_u", unit=u, primer=primer, cat=dc))
+    # histories in ONE database with a warm cache (the cache is emptied at the start of the history, so a history is
+    # self-contained): the same factors composed in several orders and forms; every step is predicted by the model
+    # from the OPERANDS / the requested mapping, never from the result object
+    n_hist = (260 if not thorough else 4000) * scale
+    for i in range(n_hist):
+        yield _history_case(ctx, _history(ctx, rng))
+    # powers: Quantity ** n (self * result), Scalar ** n (result * self), the n-fold product on value-less Arrays
+    n_pow = (160 if not thorough else 2500) * scale
+    for i in range(n_pow):
+        yield _history_case(ctx, _pow_history(ctx, rng))
     # _MakeStr directly
     texts = ["length", "time", "m", "", "a b", "x * y", "volume per time", "(p)", "1"]
     for i in range(n_mk):
@@ -548,7 +985,7 @@ def case_key(c):
 
 def show(c):
     t = c["_t"]
-    return {k: v for k, v in t.items() if k in ("kind", "recipe", "entries", "unit", "cat", "items", "build_error", "detail", "pairs", "lcats", "as_tuple", "primer")} \
+    return {k: v for k, v in t.items() if k in ("kind", "recipe", "entries", "unit", "cat", "items", "build_error", "detail", "pairs", "lcats", "as_tuple", "primer", "mode", "steps")} \
         if t["kind"] != "parse" else dict(kind="parse", syms=t["syms"][:8])
 
 
@@ -560,6 +997,8 @@ def impl(c, ctx):
     try:
         if t["kind"] == "parse":
             return dict(ok=[dict(atomic=is_atomic(s), parsed=parse_unit(s)) for s in t["syms"]])
+        if t["kind"] == "history":
+            return dict(ok=_run_history(t, ctx))
         with Pushed(ctx.db):
             if t["kind"] == "makestr":
                 from barril.units import ObtainQuantity
@@ -616,6 +1055,17 @@ def agree(c, io, mo, ctx):
             return "one side fails: impl=%s model=%s" % (io, mo)
         return None if io["err"] == mo["err"] else "error kinds differ"
     r, m = io["ok"], mo["ok"]
+    if t["kind"] == "history":
+        if len(r) != len(m):
+            return "the model answered %d steps, the history has %d" % (len(m), len(r))
+        for i, (rs, ms) in enumerate(zip(r, m)):
+            why = _agree_step(rs, ms, ctx)
+            if why:
+                return "step %d (%s, mode %s): %s" % (i, t["steps"][i]["k"], t["mode"], why)
+        k = "%s:%s" % (t["mode"], "+".join(sorted(set(st["k"] for st in t["steps"]))))
+        ctx.notes.setdefault("history_shapes", {})
+        ctx.notes["history_shapes"][k] = ctx.notes["history_shapes"].get(k, 0) + 1
+        return None
     if t["kind"] == "parse":
         for s, a, b in zip(t["syms"], r, m):
             pm = None if b["parsed"] is None else [[_u(x), e] for x, e in b["parsed"]]
@@ -690,6 +1140,8 @@ def nontrivial(c, io):
         return any("." in s or "/" in s for s in t["syms"])
     if t["kind"] == "makestr":
         return len(t["items"]) >= 2
+    if t["kind"] == "history":
+        return "ok" in io and any(x.get("derived") and len(x.get("entries", [])) >= 2 for x in io["ok"])
     return "ok" in io and io["ok"]["derived"] and len(t.get("entries", [])) >= 2
 
 
@@ -709,6 +1161,8 @@ def oracle(c, ctx):
     t = c["_t"]
     if t["kind"] == "parse":
         return None
+    if t["kind"] == "history":
+        return _oracle_history(c, ctx)
     db = ctx.db
     with Pushed(db):
         if t["kind"] == "makestr":
@@ -843,8 +1297,34 @@ def _reductions(r):
         yield ["pow", r[1], r[2] - 1]
 
 
+def _shrink_history(case, failure, ctx):
+    """fewer steps, then smaller expressions"""
+    best = (case, failure)
+    t = case["_t"]
+    for _round in range(40):
+        steps = best[0]["_t"]["steps"]
+        cands = [steps[:i] + steps[i + 1:] for i in range(len(steps)) if len(steps) > 1]
+        for i, st in enumerate(steps):
+            if st["k"] == "expr":
+                for sub in _reductions(st["recipe"]):
+                    if t["mode"] == "q" and uses_rdiv(sub):
+                        continue
+                    cands.append(steps[:i] + [dict(k="expr", recipe=sub)] + steps[i + 1:])
+        for cand in cands:
+            c2 = _history_case(ctx, dict(kind="history", mode=t["mode"], steps=cand))
+            f2 = oracle(c2, ctx)
+            if f2:
+                best = (c2, f2)
+                break
+        else:
+            break
+    return best
+
+
 def shrink(case, failure, ctx):
     t = case["_t"]
+    if t["kind"] == "history":
+        return _shrink_history(case, failure, ctx)
     if t["kind"] not in ("expr", "quant"):
         return case, failure
     best = (case, failure)
